@@ -27,6 +27,12 @@ static int wd_on, wd_fired;
 static int pend;                 /* callbacks the scenario still waits for */
 static char self_exe[512];
 
+static int fi_is_wakeup(int fd) {
+  if (!loop_ok) return 0;
+  return fd == L.signal_pipefd[0] || fd == L.signal_pipefd[1] || fd == L.async_io_watcher.fd || fd == L.async_wfd;
+}
+static int scen_arg;
+
 static void fi_flush_and_exit(int code) {
   if (getpid() != fi_pid) _exit(127);     /* the fork()ed grandchild of uv_spawn */
   if (ev_buf) __real_write(1, ev_buf, ev_len);
@@ -202,8 +208,9 @@ static void run_case(const char* scen, const char* plan, const char* dir) {
   alarm(40);
   __sanitizer_set_death_callback(on_death);
   signal(SIGABRT, on_sigabrt);
+  if (strchr(scen, ':')) scen_arg = atoi(strchr(scen, ':') + 1);
   for (i = 0; scens[i].name; i++)
-    if (!strcmp(scens[i].name, scen)) {
+    if (!strncmp(scens[i].name, scen, strcspn(scen, ":")) && strlen(scens[i].name) == strcspn(scen, ":")) {
       fi_on = 1;
       scens[i].fn();
       final_report();
